@@ -450,6 +450,11 @@ def rule_r4(ctx) -> RuleResult:
             return steps_of(e.func.value) + [(e.func.attr, e.args[0].value, None)]
         if isinstance(e, ast.BinOp) and isinstance(e.op, ast.Add) and isinstance(e.right, ast.Constant):
             return steps_of(e.left) + [("suffix", e.right.value, None)]
+        if isinstance(e, ast.JoinedStr):
+            from ..core import strtpl
+            tpl = strtpl.template(e)
+            if len(tpl) == 2 and not isinstance(tpl[0], str) and isinstance(tpl[1], str):
+                return steps_of(tpl[0]) + [("suffix", tpl[1], None)]
         raise AnalysisError("lua_loader: unrecognised sanitising expression {} (inconclusive)".format(unparse(e)[:60]))
 
     ops = []
